@@ -28,7 +28,7 @@ NUMERIC = [0.125, 0.25, 0.5]
 RULES = ["extrema", "auto", "mean", "otsu"]
 AFFINE = [(1.0, 0.0), (2.0, 0.0), (0.5, -1.0), (4.0, 3.0), (2.0**-30, 0.0), (2.0**-12, 1024.0)]  # tiny contrast / small contrast on a large offset
 MINR = [0.4, 0.6, 1.0]
-AFFINE_QUICK = [(1.0, 0.0), (0.5, -1.0), (4.0, 3.0), (2.0**-30, 0.0), (2.0**-12, 1024.0)]
+AFFINE_QUICK = [(1.0, 0.0), (4.0, 3.0), (2.0**-30, 0.0), (2.0**-12, 1024.0)]
 
 
 def cart(shape, mask):
@@ -58,7 +58,8 @@ def blocks(tier, seed):
     add(cart((8,), (True,)), [0.0, 1.0], 1)
     # the droplet tracker is a second entry point: every frame must be analysed with ITS OWN threshold
     for rule in RULES + [0.25]:
-        out.append({"tracker": True, "rule": rule, "tier": tier})
+        for part in range(4):
+            out.append({"tracker": True, "rule": rule, "tier": tier, "part": part})
     if tier == "thorough":
         add(cart((6,), (True,)), ALPH4, 2)
         add(cart((6,), (False,)), ALPH4, 2)
@@ -84,8 +85,10 @@ def tracker_images():
 def cases(block):
     if block.get("tracker"):
         imgs = tracker_images()
-        maps = AFFINE_QUICK[:3] + AFFINE_QUICK[3:4]
+        maps = [(1.0, 0.0), (0.5, -1.0), (4.0, 3.0), (2.0**-12, 1024.0)]
         for i, j in itertools.product(range(len(imgs)), repeat=2):
+            if i % 4 != block.get("part", i % 4):
+                continue
             for m in range(len(maps)):
                 yield {"tracker": True, "rule": block["rule"], "frames": [[imgs[i], [1.0, 0.0]], [imgs[j], list(maps[m])], [imgs[i], list(maps[(m + 1) % len(maps)])]]}
         return
